@@ -186,6 +186,26 @@ def run(prop, tier):
     return chk.finish()
 
 
-if __name__ == "__main__":
-    prop, tier = sys.argv[1], (sys.argv[2] if len(sys.argv) > 2 else os.environ.get("VERIF_TIER", "quick"))
+def replay_file(prop, path):
+    """Re-execute a recorded violation and print the first diverging step with both projections."""
+    rec = json.load(open(path))
+    binary = vlib.build_harness()
+    res = vlib.run_sharded(binary, "engine", rec["profile"], [rec["behaviour"]], shards=1)
+    divs = res.get("divergences", [])
+    print(json.dumps({"behaviour": [s["op"] for s in rec["behaviour"]["steps"]], "divergences": divs}, indent=1))
+    if divs:
+        print("VIOLATION property=%s replay=%s" % (prop, path))
+        return vlib.EXIT_VIOLATION
+    print("replay: no divergence on the current tree")
+    return vlib.EXIT_OK
+
+
+def main(prop):
+    if len(sys.argv) > 2 and sys.argv[1] == "--replay":
+        vlib.main_wrapper(lambda: replay_file(prop, sys.argv[2]))
+    tier = sys.argv[1] if len(sys.argv) > 1 else os.environ.get("VERIF_TIER", "quick")
     vlib.main_wrapper(lambda: run(prop, tier))
+
+
+if __name__ == "__main__":
+    main(sys.argv.pop(1))
